@@ -426,6 +426,9 @@ impl C08 {
             return Checked::violated(v.sig, v.detail);
         }
         buckets.push(format!("roundtrip:{kind}"));
+        if case.family == "blank-tail" {
+            buckets.push(format!("roundtrip:blank-tail/{kind}"));
+        }
         finish(case, &scan, buckets, true)
     }
 }
@@ -473,7 +476,7 @@ fn rand_modifier(rng: &mut Rng) -> String {
 }
 
 fn gen_case(rng: &mut Rng) -> C08Case {
-    let fam = rng.weighted(&[30, 12, 10, 12, 18, 8, 3, 5]);
+    let fam = rng.weighted(&[30, 12, 10, 12, 18, 8, 3, 5, 8]);
     let w = [45u32, 15, 12, 18, 10];
     let mut regex_wellformed = false;
     let mut probes: Vec<String> = vec![];
@@ -509,6 +512,29 @@ fn gen_case(rng: &mut Rng) -> C08Case {
             let b = *rng.pick(OTHER_BLANKS);
             (rand_text(rng, 4, &w), format!("{b}({}{})", rng.pick(KINDS).0, rng.pick(QUANTS)), "other-blank")
         }
+        // round-trip family: an equal / escaped / glob (/ no-eol) expectation whose *expression* ends in a blank
+        // other than U+0020 and a group that reads like a modifier. However the grammar treats such a tail,
+        // parse(canonical(e)) must be equivalent to e.
+        8 => {
+            let n = rng.below(5);
+            let head: String = (0..n).map(|_| *rng.pick(&['a', 'b', '0', '合', '計', 'é', ' ', '-', 'x'])).collect();
+            let blank = if rng.chance(1, 6) { *rng.pick(OTHER_BLANKS) } else { *rng.pick(&['\u{3000}', '\u{a0}', '\u{2003}', '\u{202f}', '\t']) };
+            let group = match rng.below(8) {
+                0 => "()".to_string(),
+                1 => format!("({})", rng.pick(&["?", "*", "+"])),
+                _ => format!("({}{})", rng.pick(KINDS).0, rng.pick(QUANTS)),
+            };
+            let q = *rng.pick(QUANTS);
+            let suffix = match rng.weighted(&[40, 10, 15, 15, 5]) {
+                0 => format!(" ({}{q})", rng.pick(&["equal", "eq"])),
+                1 if !q.is_empty() => format!(" ({q})"),
+                1 => " (equal)".to_string(),
+                2 => format!(" ({}{q})", rng.pick(&["escaped", "esc"])),
+                3 => format!(" ({}{q})", rng.pick(&["glob", "gl"])),
+                _ => format!(" (no-eol{q})"),
+            };
+            (format!("{head}{blank}{group}"), suffix, "blank-tail")
+        }
         _ => {
             let t = gen_esc_tokens(rng, true);
             let mut s = esc_render(&t);
@@ -520,13 +546,13 @@ fn gen_case(rng: &mut Rng) -> C08Case {
         }
     };
     // 0-3 nested suffix-like groups at the end of the expression
-    if fam != 7 && rng.chance(1, 3) {
+    if fam < 7 && rng.chance(1, 3) {
         for _ in 0..rng.range(1, 3) {
             expr.push_str(*rng.pick(NESTED));
         }
         regex_wellformed = false;
     }
-    if rng.chance(1, 40) {
+    if fam != 8 && rng.chance(1, 40) {
         suffix.clear();
     }
     C08Case {
@@ -548,7 +574,7 @@ impl Monitor for C08 {
     fn plan(&self, tier: Tier) -> Plan {
         let mut p = Plan::new(
             tier.pick(40_000, 1_500_000),
-            "case = one line `expr || suffix` (expr: any Unicode without LF incl. CR, TAB, NBSP, RTL marks, emoji, backslashes, 0-3 nested suffix-like groups, or rendered from a regex AST / glob tokens / escape tokens; suffix: every kind alias x quantifier, quantifier only, 32 near misses, none, a blank other than U+0020); grammar judged by the harness's own suffix scanner, round trip through both escapers judged on probe contents; non-trivial = the line ends in a parenthesised group or the expression has backslash / control / non-ASCII content; distinct = hash of (scanner class, suffix, content classes of the expression, number of nested groups)",
+            "case = one line `expr || suffix` (expr: any Unicode without LF incl. CR, TAB, NBSP, RTL marks, emoji, backslashes, 0-3 nested suffix-like groups, or rendered from a regex AST / glob tokens / escape tokens; suffix: every kind alias x quantifier, quantifier only, 32 near misses, none, a blank other than U+0020; plus a round-trip family of equal / escaped / glob / no-eol expectations whose expression ends in <U+3000 | U+00A0 | U+2003 | U+202F | TAB | other White_Space>(<kind><quantifier>)); grammar judged by the harness's own suffix scanner, round trip through both escapers judged on probe contents; non-trivial = the line ends in a parenthesised group or the expression has backslash / control / non-ASCII content; distinct = hash of (scanner class, suffix, content classes of the expression, number of nested groups)",
         );
         p.floor_nontrivial = tier.pick(300, 600);
         p.floor_buckets = vec![
@@ -567,6 +593,8 @@ impl Monitor for C08 {
             ("roundtrip:glob".into(), 1_000),
             ("roundtrip:regex".into(), 1_000),
             ("roundtrip:no-eol".into(), 200),
+            ("family:blank-tail".into(), 400),
+            ("roundtrip:blank-tail/equal".into(), 150),
         ];
         p.assumptions = vec![
             "a blank other than U+0020 before the final group is outside the statement: those lines are driven for the no-crash clause only".into(),
